@@ -1,0 +1,258 @@
+//go:build verif
+
+package mp4
+
+// Property C02 (agent c02d): AvcCBox, HvcCBox, Av1CBox, EsdsBox + descriptors, SencBox, UUIDBox, SgpdBox.
+
+// ---------------------------------------------------------------- avcC
+// FINDING: avc.(*DecConfRec).Size() counts 4 trailing bytes for every profile other than 66/77/88 (unless NoTrailingInfo),
+// but avc.(*DecConfRec).EncodeSW writes them only for profiles 100/110/122/144. DecodeAVCDecConfRec accepts e.g. profile 244
+// with trailing info (avc/avcdecoderconfigurationrecord.go:143-161), so the condition below is NOT established by the decoder.
+//@ pred boxOK@AvcCBox(b *AvcCBox) = b.DecConfRec.AVCProfileIndication == 66 || b.DecConfRec.AVCProfileIndication == 77 || b.DecConfRec.AVCProfileIndication == 88 || b.DecConfRec.AVCProfileIndication == 100 || b.DecConfRec.AVCProfileIndication == 110 || b.DecConfRec.AVCProfileIndication == 122 || b.DecConfRec.AVCProfileIndication == 144 || b.DecConfRec.NoTrailingInfo
+
+// ---------------------------------------------------------------- esds and the MPEG-4 descriptors (mp4/descriptors.go)
+// For a descriptor the number of bytes written by EncodeSW is SizeSize() = tag byte + size field + Size().
+// descOK(d): representation invariant of a descriptor, per type (true where none is given), abstract for a Descriptor of
+// unknown dynamic type.
+//@ absmethod SizeSize
+//@ abspred descOK
+
+// (ESDescriptor is not covered by the schema: it only occurs embedded in EsdsBox and abstract predicates cannot be applied to
+// an embedded struct ("structural argument"); it gets the same contract with the plain predicate esOK below.)
+//@ schema descEncodeSW method ^EncodeSW$ only ^(DecoderConfig|DecSpecificInfo|SLConfig|Raw)?Descriptor\.
+//@   requires swOKi(p1) && descOK(p0)
+//@   ensures swOKi(p1)
+//@   ensures[C02] result == nil ==> adv(p1, int(p0.SizeSize()))
+//@   assigns p1.(*bits.FixedSliceWriter).off, p1.(*bits.FixedSliceWriter).accError, p1.(*bits.FixedSliceWriter).n, p1.(*bits.FixedSliceWriter).v, p1.(*bits.FixedSliceWriter).buf[:]
+
+// The size field takes sizeFieldSizeMinus1+1 bytes, whatever the value (each WriteBits(.., 8) advances by one byte and keeps
+// the number of pending bits).
+//@ func writeDescriptorSize
+//@   ensures adv(sw, int(sizeFieldSizeMinus1) + 1)
+//@   assigns sw.(*bits.FixedSliceWriter).off, sw.(*bits.FixedSliceWriter).accError, sw.(*bits.FixedSliceWriter).n, sw.(*bits.FixedSliceWriter).v, sw.(*bits.FixedSliceWriter).buf[:]
+//@   loop 1 invariant -1 <= pos && pos <= int(sizeFieldSizeMinus1) && adv(sw, int(sizeFieldSizeMinus1) - pos)
+
+// descSum(ds, n): sum of SizeSize() of the first n descriptors
+//@ spec rec descSum(ds []Descriptor, n int) uint64 = ite(n <= 0, uint64(0), descSum(ds, n-1) + ds[n-1].SizeSize())
+//@ pred descsOK(ds []Descriptor) = forall i int :: 0 <= i && i < len(ds) ==> descOK(ds[i])
+
+//@ spec dsiSize(d *DecoderConfigDescriptor) uint64 = ite(d.DecSpecificInfo != nil, d.DecSpecificInfo.SizeSize(), uint64(0))
+
+//@ pred descOK@DecoderConfigDescriptor(d *DecoderConfigDescriptor) = descsOK(d.OtherDescriptors)
+
+//@ func (*DecoderConfigDescriptor).Size
+//@   requires d != nil
+//@   ensures result == 13 + dsiSize(d) + descSum(d.OtherDescriptors, len(d.OtherDescriptors)) + uint64(len(d.UnknownData))
+//@   assigns nothing
+//@   loop 1 invariant size == 13 + dsiSize(d) + descSum(d.OtherDescriptors, idx(1))
+
+//@ func (*DecoderConfigDescriptor).EncodeSW
+//@   loop 1 invariant adv(sw, 15 + int(d.sizeFieldSizeMinus1) + int(dsiSize(d)) + int(descSum(d.OtherDescriptors, idx(1))))
+
+// ESDescriptor (embedded in EsdsBox). Bytes counted by Size() for the optional fields selected by FlagsAndPriority:
+//@ spec esA(e *ESDescriptor) uint64 = ite(e.FlagsAndPriority>>7 == 1, uint64(2), uint64(0))
+//@ spec esB(e *ESDescriptor) uint64 = ite((e.FlagsAndPriority>>6)&1 == 1, 1 + uint64(len(e.URLString)), uint64(0))
+//@ spec esC(e *ESDescriptor) uint64 = ite((e.FlagsAndPriority>>5)&1 == 1, uint64(2), uint64(0))
+//@ spec esDC(e *ESDescriptor) uint64 = ite(e.DecConfigDescriptor != nil, e.DecConfigDescriptor.SizeSize(), uint64(0))
+//@ spec esSL(e *ESDescriptor) uint64 = ite(e.SLConfigDescriptor != nil, e.SLConfigDescriptor.SizeSize(), uint64(0))
+
+//@ pred esOK(e *ESDescriptor) = descsOK(e.OtherDescriptors) && (e.DecConfigDescriptor != nil ==> descsOK(e.DecConfigDescriptor.OtherDescriptors))
+
+// The solvers do not split on the nil-ness of the two optional sub-descriptors by themselves: one guarded clause per case.
+//@ spec esBase(e *ESDescriptor) uint64 = 3 + esA(e) + esB(e) + esC(e)
+//@ pred esNN(e *ESDescriptor) = e.DecConfigDescriptor == nil && e.SLConfigDescriptor == nil
+//@ pred esDN(e *ESDescriptor) = e.DecConfigDescriptor != nil && e.SLConfigDescriptor == nil
+//@ pred esND(e *ESDescriptor) = e.DecConfigDescriptor == nil && e.SLConfigDescriptor != nil
+//@ pred esDD(e *ESDescriptor) = e.DecConfigDescriptor != nil && e.SLConfigDescriptor != nil
+//@ func (*ESDescriptor).Size
+//@   requires e != nil
+//@   ensures esNN(e) ==> result == esBase(e) + descSum(e.OtherDescriptors, len(e.OtherDescriptors)) + uint64(len(e.UnknownData))
+//@   ensures esDN(e) ==> result == esBase(e) + e.DecConfigDescriptor.SizeSize() + descSum(e.OtherDescriptors, len(e.OtherDescriptors)) + uint64(len(e.UnknownData))
+//@   ensures esND(e) ==> result == esBase(e) + e.SLConfigDescriptor.SizeSize() + descSum(e.OtherDescriptors, len(e.OtherDescriptors)) + uint64(len(e.UnknownData))
+//@   ensures esDD(e) ==> result == esBase(e) + e.DecConfigDescriptor.SizeSize() + e.SLConfigDescriptor.SizeSize() + descSum(e.OtherDescriptors, len(e.OtherDescriptors)) + uint64(len(e.UnknownData))
+//@   assigns nothing
+//@   loop 1 invariant esNN(e) ==> size == esBase(e) + descSum(e.OtherDescriptors, idx(1))
+//@   loop 1 invariant esDN(e) ==> size == esBase(e) + e.DecConfigDescriptor.SizeSize() + descSum(e.OtherDescriptors, idx(1))
+//@   loop 1 invariant esND(e) ==> size == esBase(e) + e.SLConfigDescriptor.SizeSize() + descSum(e.OtherDescriptors, idx(1))
+//@   loop 1 invariant esDD(e) ==> size == esBase(e) + e.DecConfigDescriptor.SizeSize() + e.SLConfigDescriptor.SizeSize() + descSum(e.OtherDescriptors, idx(1))
+
+// The loop invariant "bytes written so far" is given once per combination of the three optional-field flags and the presence of
+// the SLConfigDescriptor (16 guarded copies of the same formula): the solvers do not perform this case split by themselves.
+//@ pred esFA(e *ESDescriptor) = e.FlagsAndPriority>>7 == 1
+//@ pred esFB(e *ESDescriptor) = (e.FlagsAndPriority>>6)&1 == 1
+//@ pred esFC(e *ESDescriptor) = (e.FlagsAndPriority>>5)&1 == 1
+//@ func (*ESDescriptor).EncodeSW
+//@   requires esOK(e)
+//@   ensures swOKi(sw)
+//@   ensures[C02] result == nil ==> adv(sw, int(e.SizeSize()))
+//@   assigns sw.(*bits.FixedSliceWriter).off, sw.(*bits.FixedSliceWriter).accError, sw.(*bits.FixedSliceWriter).n, sw.(*bits.FixedSliceWriter).v, sw.(*bits.FixedSliceWriter).buf[:]
+//@   loop 1 invariant e.DecConfigDescriptor != nil
+//@   loop 1 invariant !esFA(e) && !esFB(e) && !esFC(e) && e.SLConfigDescriptor == nil ==> adv(sw, 2 + int(e.sizeFieldSizeMinus1) + int(esBase(e)) + int(e.DecConfigDescriptor.SizeSize()) + int(descSum(e.OtherDescriptors, idx(1))))
+//@   loop 1 invariant !esFA(e) && !esFB(e) && !esFC(e) && e.SLConfigDescriptor != nil ==> adv(sw, 2 + int(e.sizeFieldSizeMinus1) + int(esBase(e)) + int(e.DecConfigDescriptor.SizeSize()) + int(e.SLConfigDescriptor.SizeSize()) + int(descSum(e.OtherDescriptors, idx(1))))
+//@   loop 1 invariant !esFA(e) && !esFB(e) && esFC(e) && e.SLConfigDescriptor == nil ==> adv(sw, 2 + int(e.sizeFieldSizeMinus1) + int(esBase(e)) + int(e.DecConfigDescriptor.SizeSize()) + int(descSum(e.OtherDescriptors, idx(1))))
+//@   loop 1 invariant !esFA(e) && !esFB(e) && esFC(e) && e.SLConfigDescriptor != nil ==> adv(sw, 2 + int(e.sizeFieldSizeMinus1) + int(esBase(e)) + int(e.DecConfigDescriptor.SizeSize()) + int(e.SLConfigDescriptor.SizeSize()) + int(descSum(e.OtherDescriptors, idx(1))))
+//@   loop 1 invariant !esFA(e) && esFB(e) && !esFC(e) && e.SLConfigDescriptor == nil ==> adv(sw, 2 + int(e.sizeFieldSizeMinus1) + int(esBase(e)) + int(e.DecConfigDescriptor.SizeSize()) + int(descSum(e.OtherDescriptors, idx(1))))
+//@   loop 1 invariant !esFA(e) && esFB(e) && !esFC(e) && e.SLConfigDescriptor != nil ==> adv(sw, 2 + int(e.sizeFieldSizeMinus1) + int(esBase(e)) + int(e.DecConfigDescriptor.SizeSize()) + int(e.SLConfigDescriptor.SizeSize()) + int(descSum(e.OtherDescriptors, idx(1))))
+//@   loop 1 invariant !esFA(e) && esFB(e) && esFC(e) && e.SLConfigDescriptor == nil ==> adv(sw, 2 + int(e.sizeFieldSizeMinus1) + int(esBase(e)) + int(e.DecConfigDescriptor.SizeSize()) + int(descSum(e.OtherDescriptors, idx(1))))
+//@   loop 1 invariant !esFA(e) && esFB(e) && esFC(e) && e.SLConfigDescriptor != nil ==> adv(sw, 2 + int(e.sizeFieldSizeMinus1) + int(esBase(e)) + int(e.DecConfigDescriptor.SizeSize()) + int(e.SLConfigDescriptor.SizeSize()) + int(descSum(e.OtherDescriptors, idx(1))))
+//@   loop 1 invariant esFA(e) && !esFB(e) && !esFC(e) && e.SLConfigDescriptor == nil ==> adv(sw, 2 + int(e.sizeFieldSizeMinus1) + int(esBase(e)) + int(e.DecConfigDescriptor.SizeSize()) + int(descSum(e.OtherDescriptors, idx(1))))
+//@   loop 1 invariant esFA(e) && !esFB(e) && !esFC(e) && e.SLConfigDescriptor != nil ==> adv(sw, 2 + int(e.sizeFieldSizeMinus1) + int(esBase(e)) + int(e.DecConfigDescriptor.SizeSize()) + int(e.SLConfigDescriptor.SizeSize()) + int(descSum(e.OtherDescriptors, idx(1))))
+//@   loop 1 invariant esFA(e) && !esFB(e) && esFC(e) && e.SLConfigDescriptor == nil ==> adv(sw, 2 + int(e.sizeFieldSizeMinus1) + int(esBase(e)) + int(e.DecConfigDescriptor.SizeSize()) + int(descSum(e.OtherDescriptors, idx(1))))
+//@   loop 1 invariant esFA(e) && !esFB(e) && esFC(e) && e.SLConfigDescriptor != nil ==> adv(sw, 2 + int(e.sizeFieldSizeMinus1) + int(esBase(e)) + int(e.DecConfigDescriptor.SizeSize()) + int(e.SLConfigDescriptor.SizeSize()) + int(descSum(e.OtherDescriptors, idx(1))))
+//@   loop 1 invariant esFA(e) && esFB(e) && !esFC(e) && e.SLConfigDescriptor == nil ==> adv(sw, 2 + int(e.sizeFieldSizeMinus1) + int(esBase(e)) + int(e.DecConfigDescriptor.SizeSize()) + int(descSum(e.OtherDescriptors, idx(1))))
+//@   loop 1 invariant esFA(e) && esFB(e) && !esFC(e) && e.SLConfigDescriptor != nil ==> adv(sw, 2 + int(e.sizeFieldSizeMinus1) + int(esBase(e)) + int(e.DecConfigDescriptor.SizeSize()) + int(e.SLConfigDescriptor.SizeSize()) + int(descSum(e.OtherDescriptors, idx(1))))
+//@   loop 1 invariant esFA(e) && esFB(e) && esFC(e) && e.SLConfigDescriptor == nil ==> adv(sw, 2 + int(e.sizeFieldSizeMinus1) + int(esBase(e)) + int(e.DecConfigDescriptor.SizeSize()) + int(descSum(e.OtherDescriptors, idx(1))))
+//@   loop 1 invariant esFA(e) && esFB(e) && esFC(e) && e.SLConfigDescriptor != nil ==> adv(sw, 2 + int(e.sizeFieldSizeMinus1) + int(esBase(e)) + int(e.DecConfigDescriptor.SizeSize()) + int(e.SLConfigDescriptor.SizeSize()) + int(descSum(e.OtherDescriptors, idx(1))))
+
+//@ pred boxOK@EsdsBox(b *EsdsBox) = descsOK(b.OtherDescriptors) && (b.DecConfigDescriptor != nil ==> descsOK(b.DecConfigDescriptor.OtherDescriptors))
+
+// ---------------------------------------------------------------- senc
+// sencSum(ss, n, piv, flag): payload bytes of the first n samples of a parsed senc box: piv bytes of IV and, with the
+// subsample flag, a 2-byte count + 6 bytes per subsample. One recursive function (instead of SampleCount*piv + a sum) and
+// a body shaped like the additions of EncodeSWNoHdr keep the bit-vector arithmetic of the proof obligations trivial.
+//@ spec rec sencSum(ss [][]SubSamplePattern, n int, piv uint64, flag bool) uint64 = ite(n <= 0, uint64(0), ite(flag, sencSum(ss, n-1, piv, flag) + piv + 2 + 6*uint64(len(ss[n-1])), sencSum(ss, n-1, piv, flag) + piv))
+// sencPart(s, n): payload bytes of the first n samples of a parsed senc box
+//@ spec sencPart(s *SencBox, n int) uint64 = sencSum(s.SubSamples, n, uint64(s.perSampleIVSize), s.Flags&2 != 0)
+// sencBody(s): payload bytes after version/flags and sample count of a parsed senc box
+//@ spec sencBody(s *SencBox) uint64 = sencPart(s, int(s.SampleCount))
+
+//@ func (*SencBox).calcSize
+//@   requires s != nil
+//@   ensures result == 16 + sencBody(s)
+//@   assigns nothing
+//@   loop 1 invariant i <= s.SampleCount && totalSize == 16 + sencPart(s, int(i))
+
+// sencOK: see the report for which conjuncts the decoders establish.
+//  - not yet parsed: the size from the header is 16 + len(rawData)   (DecodeSencSR senc.go:176-184 when hdr.Hdrlen == 8; FINDING for Hdrlen == 16)
+//  - parsed: readBoxSize is 0 (constructed box) or agrees with the parsed content (FINDING: not guaranteed, e.g. SampleCount == 0 with trailing bytes)
+//  - parsed with IVs: every IV has perSampleIVSize bytes (AddSample senc.go:69-76, ParseReadBox senc.go:219-227, parseAndFillSamples senc.go:279)
+//  - the subsample flag is set whenever some subsample table is non-empty (AddSample senc.go:81-84; parseAndFillSamples only runs with the flag set)
+//@ pred sencFlagOK(s *SencBox) = s.Flags&2 != 0 || (forall k int :: 0 <= k && k < len(s.SubSamples) ==> len(s.SubSamples[k]) == 0)
+//@ pred sencIVsOK(s *SencBox) = forall k int :: 0 <= k && k < int(s.SampleCount) ==> len(s.IVs[k]) == int(s.perSampleIVSize)
+// sencEncOK: what EncodeSWNoHdr needs; sencOK: in addition what relates the bytes written to Size().
+//@ pred sencEncOK(s *SencBox) = s != nil && (!s.readButNotParsed && s.perSampleIVSize > 0 ==> sencIVsOK(s))
+//@ pred sencOK(s *SencBox) = sencEncOK(s) && sencFlagOK(s) && (s.readButNotParsed ==> s.readBoxSize == 16 + uint64(len(s.rawData))) && (!s.readButNotParsed ==> s.readBoxSize == 0 || s.readBoxSize == 16 + sencBody(s))
+//@ pred boxOK@SencBox(b *SencBox) = sencOK(b)
+
+//@ func (*SencBox).setSubSamplesUsedFlag
+//@   requires s != nil
+//@   ensures s.Flags == old(s.Flags) || s.Flags == old(s.Flags) | 2
+//@   ensures old(sencFlagOK(s)) ==> s.Flags == old(s.Flags)
+//@   assigns s.Flags
+//@   loop 1 invariant s.Flags == old(s.Flags)
+//@   loop 1 invariant forall k int :: 0 <= k && k < idx(1) ==> len(s.SubSamples[k]) == 0
+
+//@ func (*SencBox).EncodeSWNoHdr
+//@   requires sencEncOK(s)
+//@   ensures swOKi(sw)
+//@   ensures[C02] result == nil ==> adv(sw, 8 + ite(s.readButNotParsed, len(s.rawData), int(sencBody(s))))
+//@   assigns sw.(*bits.FixedSliceWriter).off, sw.(*bits.FixedSliceWriter).accError, sw.(*bits.FixedSliceWriter).n, sw.(*bits.FixedSliceWriter).v, sw.(*bits.FixedSliceWriter).buf[:]
+//@   loop 1 invariant 0 <= i && i <= int(s.SampleCount) && adv(sw, 8 + int(sencPart(s, i)))
+//@   loop 2 invariant idx(2) <= len(s.SubSamples[i])
+//@   loop 2 invariant 0 <= i && i < int(s.SampleCount) && s.Flags&2 != 0 && adv(sw, 8 + int(sencSum(s.SubSamples, i, uint64(s.perSampleIVSize), true) + uint64(s.perSampleIVSize) + 2 + 6*uint64(idx(2))))
+
+// EncodeSW first calls setSubSamplesUsedFlag, which may write s.Flags: under sencOK the value does not change (second ensures),
+// but the location is written, so the frame of the schema (writer only) is widened by s.Flags for this box. DEVIATION, reported.
+//@ func (*SencBox).EncodeSW
+//@   ensures s.Flags == old(s.Flags)
+//@   assigns s.Flags, sw.(*bits.FixedSliceWriter).off, sw.(*bits.FixedSliceWriter).accError, sw.(*bits.FixedSliceWriter).n, sw.(*bits.FixedSliceWriter).v, sw.(*bits.FixedSliceWriter).buf[:]
+
+// ---------------------------------------------------------------- sgpd and the sample group entries
+// sgeOK(e): representation invariant of a sample group entry (per type; abstract for an entry of unknown dynamic type).
+// Every entry encoder writes exactly Size() bytes (Encode has no result: the statement is conditional on the writer's error state only).
+//@ abspred sgeOK
+//@ schema sgeEncode method ^Encode$ only ^\w*SampleGroupEntry\.
+//@   requires swOKi(p1) && sgeOK(p0)
+//@   ensures swOKi(p1)
+//@   ensures[C02] adv(p1, int(p0.Size()))
+//@   assigns p1.(*bits.FixedSliceWriter).off, p1.(*bits.FixedSliceWriter).accError, p1.(*bits.FixedSliceWriter).n, p1.(*bits.FixedSliceWriter).v, p1.(*bits.FixedSliceWriter).buf[:]
+
+// seig: Size() counts 16 bytes for the KID (DecodeSeigSampleGroupEntry samplegroupentries.go:66 reads exactly 16)
+//@ pred sgeOK@SeigSampleGroupEntry(s *SeigSampleGroupEntry) = len(s.KID) == 16
+// alst: the two optional tables are parallel (DecodeAlstSampleGroupEntry samplegroupentries.go:293-294 allocates both with the same length)
+//@ pred sgeOK@AlstSampleGroupEntry(s *AlstSampleGroupEntry) = len(s.NumOutputSamples) == len(s.NumTotalSamples)
+//@ func (*AlstSampleGroupEntry).Encode
+//@   loop 1 invariant adv(sw, 4 + 4*idx(1))
+//@   loop 2 invariant adv(sw, 4 + 4*len(s.SampleOffset) + 4*idx(2))
+
+// dlSum(ls, n): bytes of the first n entries when each has its own 4-byte length field
+//@ spec rec dlSum(ls []uint32, n int) uint64 = ite(n <= 0, uint64(0), dlSum(ls, n-1) + uint64(4 + ls[n-1]))
+//@ pred sgesOK(es []SampleGroupEntry) = forall k int :: 0 <= k && k < len(es) ==> sgeOK(es[k])
+//@ spec sgpdHdr(b *SgpdBox) uint64 = 20 + ite(b.Version >= 1, uint64(4), uint64(0)) + ite(b.Version >= 2, uint64(4), uint64(0))
+
+//@ func (*SgpdBox).Size
+//@   pure
+//@   requires b != nil
+//@   ensures b.Version == 0 ==> result == 20
+//@   ensures b.Version >= 1 && b.DefaultLength != 0 ==> result == sgpdHdr(b) + uint64(len(b.SampleGroupEntries) * int(b.DefaultLength))
+//@   ensures b.Version >= 1 && b.DefaultLength == 0 ==> result == sgpdHdr(b) + dlSum(b.DescriptionLengths, len(b.DescriptionLengths))
+//@   assigns nothing
+//@   loop 1 invariant b.Version >= 1 && b.DefaultLength == 0 && size == sgpdHdr(b) + dlSum(b.DescriptionLengths, idx(1))
+
+// boxOK@SgpdBox:
+//  - a version 0 box has no entries (DecodeSgpdSR sgpd.go:56-58: with version 0 the description length is 0 and any entry is rejected)
+//  - every entry is a valid entry (results of the entry decoders)
+//  - with a default length every entry has that size, otherwise DescriptionLengths is parallel to the entries and gives their sizes.
+//    FINDING: the roll/rap (and alst) entry decoders ignore the given length, so this is NOT established by the decoder.
+//    Individual lengths are at most 2^32-5: Size() adds uint64(4 + descLen) computed in uint32 (wraps for larger values; such an
+//    entry would be larger than the 4 GiB assumed as maximal box size).
+//@ pred sgpdDefOK(b *SgpdBox) = forall k int :: 0 <= k && k < len(b.SampleGroupEntries) ==> b.SampleGroupEntries[k].Size() == uint64(b.DefaultLength)
+//@ pred sgpdIndOK(b *SgpdBox) = forall k int :: 0 <= k && k < len(b.SampleGroupEntries) ==> b.DescriptionLengths[k] <= 0xfffffffb && b.SampleGroupEntries[k].Size() == uint64(b.DescriptionLengths[k])
+//@ pred sgpdLensOK(b *SgpdBox) = (b.DefaultLength != 0 ==> sgpdDefOK(b)) && (b.DefaultLength == 0 ==> len(b.DescriptionLengths) == len(b.SampleGroupEntries) && sgpdIndOK(b))
+//@ pred boxOK@SgpdBox(b *SgpdBox) = len(b.GroupingType) == 4 && (b.Version == 0 ==> len(b.SampleGroupEntries) == 0) && sgesOK(b.SampleGroupEntries) && sgpdLensOK(b)
+
+//@ func (*SgpdBox).EncodeSW
+//@   loop 1 invariant 0 <= i && i <= entryCount && entryCount == len(b.SampleGroupEntries)
+// (disjunctive form of i <= entryCount: at loop exit the equality is obtained by unit resolution instead of bit-level antisymmetry)
+//@   loop 1 invariant i < entryCount || i == len(b.SampleGroupEntries)
+//@   loop 1 invariant b.DefaultLength == 0 ==> i < entryCount || i == len(b.DescriptionLengths)
+//@   loop 1 invariant b.DefaultLength != 0 ==> adv(sw, int(sgpdHdr(b)) + i*int(b.DefaultLength))
+//@   loop 1 invariant b.DefaultLength == 0 ==> adv(sw, int(sgpdHdr(b)) + int(dlSum(b.DescriptionLengths, i)))
+
+// ---------------------------------------------------------------- uuid
+// UUID.Equal is bytes.Equal, for which the verifier has no model: its functional contract is stated and its post obligation is
+// ASSUMED (trustkind post). Needed because Size() and EncodeSW must be known to take the same branch.
+//@ pred uuidEq(u UUID, a UUID) = len(u) == len(a) && (forall i int :: 0 <= i && i < len(u) ==> u[i] == a[i])
+//@ func (UUID).Equal
+//@   ensures result == uuidEq(u, a)
+//@   assigns nothing
+//@   trustkind post
+
+//@ func (*SencBox).Size
+//@   inline
+//@ func (*TfxdData).size
+//@   inline
+//@ func (*TfrfData).size
+//@   inline
+
+//@ func (*TfxdData).encode
+//@   requires t != nil
+//@   ensures swOKi(sw)
+//@   ensures[C02] result == nil ==> adv(sw, ite(t.Version == 0, 12, 20))
+//@   assigns sw.(*bits.FixedSliceWriter).off, sw.(*bits.FixedSliceWriter).accError, sw.(*bits.FixedSliceWriter).n, sw.(*bits.FixedSliceWriter).v, sw.(*bits.FixedSliceWriter).buf[:]
+
+//@ func (*TfrfData).encode
+//@   requires t != nil
+//@   ensures swOKi(sw)
+//@   ensures[C02] result == nil ==> adv(sw, 5 + ite(t.Version == 0, 8, 16)*int(t.FragmentCount))
+//@   assigns sw.(*bits.FixedSliceWriter).off, sw.(*bits.FixedSliceWriter).accError, sw.(*bits.FixedSliceWriter).n, sw.(*bits.FixedSliceWriter).v, sw.(*bits.FixedSliceWriter).buf[:]
+//@   loop 1 invariant i <= t.FragmentCount && t.Version == 0 && adv(sw, 5 + 8*int(i))
+//@   loop 1 invariant i < t.FragmentCount || i == t.FragmentCount
+//@   loop 2 invariant i <= t.FragmentCount && t.Version != 0 && adv(sw, 5 + 16*int(i))
+//@   loop 2 invariant i < t.FragmentCount || i == t.FragmentCount
+
+// boxOK@UUIDBox:
+//  - the uuid has 16 bytes (DecodeUUIDBoxSR uuid.go:172 reads 16; NewTfrfBox/NewTfxdBox use the 16-byte constants)
+//  - the payload matching the uuid is present (DecodeUUIDBoxSR uuid.go:174-196, NewTfxdBox, NewTfrfBox)
+//  - FINDING: tfxd/tfrf version <= 1: size() counts 8+8*Version bytes per time/duration pair, encode writes 8 (version 0) or 16; the
+//    decoders decodeTfxd/decodeTfrf accept any version byte, so this is NOT established by the decoder.
+//  - piff senc: the embedded SencBox is valid (sencOK, see there)
+//@ pred isTfxd(b *UUIDBox) = uuidEq(b.uuid, uuidTfxd)
+//@ pred isTfrf(b *UUIDBox) = !uuidEq(b.uuid, uuidTfxd) && uuidEq(b.uuid, uuidTfrf)
+//@ pred isPiff(b *UUIDBox) = !uuidEq(b.uuid, uuidTfxd) && !uuidEq(b.uuid, uuidTfrf) && uuidEq(b.uuid, uuidPiffSenc)
+//@ pred boxOK@UUIDBox(b *UUIDBox) = len(b.uuid) == 16 && (isTfxd(b) ==> b.Tfxd != nil && b.Tfxd.Version <= 1) && (isTfrf(b) ==> b.Tfrf != nil && b.Tfrf.Version <= 1) && (isPiff(b) ==> sencOK(b.Senc))
+
+// ASSUMPTION (assumes): the writer's buffer is not the array holding the box's uuid or one of the three constant uuids (otherwise
+// writing could change which branch Size() takes afterwards). Every Encode() method allocates a fresh buffer (bits.NewFixedSliceWriter).
+//@ func (*UUIDBox).EncodeSW
+//@   assumes ref(sw.(*bits.FixedSliceWriter).buf) != ref(b.uuid) && ref(sw.(*bits.FixedSliceWriter).buf) != ref(uuidTfxd) && ref(sw.(*bits.FixedSliceWriter).buf) != ref(uuidTfrf) && ref(sw.(*bits.FixedSliceWriter).buf) != ref(uuidPiffSenc)
